@@ -231,13 +231,23 @@ def rule_token_range_source(prog):
                 return ok_range(dmap[e["res"]["id"]], depth + 1)
             return False
 
+        per_macro = {}
         for call in hir.nodes(b["body"], "Call"):
             d = hir.callee_display(call) or ""
             if d in ("tokens::Token::new", "tokens::Token::new_with_errors") and len(call["args"]) >= 2:
                 n += 1
-                out.add(b["d"], "token range is the range of the consumed input", ok_range(call["args"][1]), c.loc(call["sp"]),
-                        "the token's byte range is computed by arithmetic instead of being taken from Span::to_range() / "
-                        "location_offset() of the input that was actually consumed: wrong for multi-byte characters")
+                why = ("the token's byte range is computed by arithmetic instead of being taken from Span::to_range() / "
+                       "location_offset() of the input that was actually consumed: wrong for multi-byte characters")
+                mx = [m for m in (call.get("mx") or []) if m.startswith("lex_") or not m.startswith(("vec!", "format"))]
+                if mx:
+                    # one source site expanded many times: one instance per macro
+                    e = per_macro.setdefault(mx[-1], [True, c.loc(call["sp"])])
+                    if not ok_range(call["args"][1]):
+                        e[0], e[1] = False, c.loc(call["sp"])
+                    continue
+                out.add(b["d"], "token range is the range of the consumed input", ok_range(call["args"][1]), c.loc(call["sp"]), why)
+        for m, (ok, loc) in sorted(per_macro.items()):
+            out.add(b["d"], "token range is the range of the consumed input (in %s)" % m, ok, loc, why)
     if n < 8:
         out.missing("Token::new call sites in lexer.rs (found %d)" % n)
     return out
@@ -264,18 +274,35 @@ def rule_keyword_boundary(prog):
     cont = [p for p in fn_paths(an0["body"])]
     uses_an0 = any(p == an0["p"] for p in fn_paths(ident[0]["body"]))
     out.add("<Ident as Lexer>::lex", "identifier continuation is alpha_numeric0", uses_an0, c.loc(ident[0]["sp"]), "")
+    # the whole-word test: `starts_with(<class>)` calls under the keyword alternatives' look-ahead (`peek`), in the macro
+    # expansion or in the helper the alternatives call (sub-lexers `X::lex` are separate alternatives, not descended into)
     n = 0
-    for m in hir.nodes(lex[0]["body"], "MethodCall"):
-        if m["m"] == "starts_with" and "lex_keyword!" in (m.get("mx") or []):
-            n += 1
-            arg = hir.strip(m["args"][0]) if m["args"] else {}
-            d = hir.path_def(arg)
-            ok = bool(d) and d["p"] in cont
-            out.add("lex_keyword!", "keyword boundary uses the identifier continuation class", ok, c.loc(m["sp"]),
-                    "the look-ahead that decides whether a keyword is a whole word uses a different character class than "
-                    "Ident::lex (%s): text such as `ref_count` or `type1` is split into a keyword and an identifier" % cont)
-    if n < 9:
-        out.missing("lex_keyword! boundary tests (found %d)" % n)
+    bad = None
+
+    def boundary_tests(root, depth=3, seen=None):
+        seen = seen if seen is not None else set()
+        for x in hir.nodes(root):
+            if x.get("k") == "MethodCall" and x["m"] == "starts_with" and "LocatedSpan" in c.tstr(x["recv"]["t"]):
+                yield x
+            if depth > 0 and x.get("k") == "Call":
+                hb = hir.local_callee_body(prog, x)
+                if hb is not None and "impl_trait" not in hb and hb["p"] not in seen and hb["p"].startswith("spl_frontend::lexer"):
+                    seen.add(hb["p"])
+                    yield from boundary_tests(hb["body"], depth - 1, seen)
+
+    for m in boundary_tests(lex[0]["body"]):
+        n += 1
+        arg = hir.strip(m["args"][0]) if m["args"] else {}
+        d = hir.path_def(arg)
+        if not (bool(d) and d["p"] in cont):
+            bad = m
+    if n:
+        out.add("<Token as Lexer>::lex", "keyword boundary uses the identifier continuation class", bad is None,
+                c.loc((bad or lex[0])["sp"]),
+                "the look-ahead that decides whether a keyword is a whole word uses a different character class than "
+                "Ident::lex (%s): text such as `ref_count` or `type1` is split into a keyword and an identifier" % cont)
+    else:
+        out.missing("whole-word boundary test (`starts_with`) of the keyword alternatives in Token::lex")
     return out
 
 
@@ -318,6 +345,8 @@ def rule_doc_in_range(prog):
     out = Out("DOC-IN-RANGE")
     c = prog.front
     n = 0
+    from . import roles
+    comments = roles.comment_parsers(prog)
     for b in c.bodies:
         if not c.file_of(b["sp"]).endswith("parser.rs") or "parser::Parser>::parse" not in b["d"]:
             continue
@@ -325,7 +354,7 @@ def rule_doc_in_range(prog):
             if call.get("k") != "Call" or not (hir.callee(call) or "").endswith("nom::multi::many0"):
                 continue
             d = hir.path_def(call["args"][0]) if call["args"] else None
-            if not d or d["p"] != "spl_frontend::parser::comment":
+            if not d or (d.get("rp") or d["p"]) not in comments:
                 continue
             n += 1
             inside = any(p.get("k") == "Call" and (hir.callee(p) or "").endswith("parser::utility::info") for p in parents)
@@ -414,18 +443,41 @@ def rule_one_per_item(prog):
     if b is None:
         out.missing("features::fold::fold")
         return out
-    fm = [m for m in hir.nodes(b["body"], "MethodCall") if m["m"] == "filter_map"]
-    ok = False
-    if fm:
-        clo = hir.strip(fm[0]["args"][0]) if fm[0]["args"] else {}
-        kept = set()
-        for m in hir.nodes(clo, "Match"):
-            for arm in m["arms"]:
-                pv = hir.pat_variant(arm["pat"]) or ""
-                some = any(last(p["res"].get("ctor_of", "")) == "Some" for p in hir.nodes(arm["body"], "Path"))
-                if some and pv:
-                    kept.add(last(pv))
-        ok = kept == {"Procedure"}
+    # which declaration variants produce a range: match arms / `if let` heads on GlobalDeclaration whose guarded code
+    # yields something (Some(..) in a filter_map, a push, or the FoldingRange literal itself - also through a helper)
+    GD = "spl_frontend::ast::GlobalDeclaration::"
+
+    def productive(node):
+        for x in hir.nodes_deep(prog, node, 2, crate=c):
+            if x.get("k") == "Path" and last(x["res"].get("ctor_of", "")) == "Some":
+                return True
+            if x.get("k") == "MethodCall" and x["m"] in ("push", "extend", "insert"):
+                return True
+            if x.get("k") == "Struct" and (x.get("adt") or "").endswith("FoldingRange"):
+                return True
+        return False
+
+    kept = set()
+    n_pats = 0
+    for n in hir.nodes(b["body"]):
+        if n.get("k") == "Match" and n.get("src") == "match":
+            for arm in n["arms"]:
+                vs = [v for v in hir.pat_variants_all(arm["pat"]) if v.startswith(GD)]
+                n_pats += len(vs)
+                if vs and productive(arm["body"]):
+                    kept |= set(last(v) for v in vs)
+                if not vs and hir.is_wild(arm["pat"]) and productive(arm["body"]) and any(
+                        v.startswith(GD) for a2 in n["arms"] for v in hir.pat_variants_all(a2["pat"])):
+                    kept.add("_")
+        elif n.get("k") == "If":
+            for le in hir.nodes(n["cond"], "LetExpr"):
+                vs = [v for v in hir.pat_variants_all(le["pat"]) if v.startswith(GD)]
+                n_pats += len(vs)
+                if vs and productive(n["then"]):
+                    kept |= set(last(v) for v in vs)
+                if vs and n.get("else") and productive(n["else"]):
+                    kept.add("_")
+    ok = (kept == {"Procedure"}) if n_pats else None
     out.add("features::fold::fold", "the filter keeps exactly the Procedure declarations", ok, c.loc(b["sp"]), "")
     removing = ("dedup", "dedup_by", "dedup_by_key", "retain", "retain_mut", "truncate", "drain", "pop", "remove", "swap_remove",
                 "clear", "filter", "take", "skip", "step_by", "take_while", "skip_while", "split_off")
@@ -448,6 +500,6 @@ def rule_one_per_item(prog):
     out.add("features::fold::fold", "no folding range is removed or merged after it was computed", not bad and not chain_bad,
             c.loc((bad + chain_bad)[0]["sp"]) if (bad or chain_bad) else c.loc(b["sp"]),
             "`%s` drops ranges: procedures that share a line with their neighbour lose their folding range" % ((bad + chain_bad)[0]["m"] if (bad or chain_bad) else ""))
-    fr = [s_ for s_ in hir.nodes(b["body"], "Struct") if (s_.get("adt") or "").endswith("FoldingRange")]
+    fr = [s_ for s_ in hir.nodes_deep(prog, b["body"], 2, crate=c) if s_.get("k") == "Struct" and (s_.get("adt") or "").endswith("FoldingRange")]
     out.add("features::fold::fold", "one FoldingRange literal, built per procedure", len(fr) == 1, c.loc(b["sp"]), "found %d" % len(fr))
     return out
